@@ -1,6 +1,6 @@
 """C16 -- the structure factor is a normalised, symmetry-invariant power spectrum."""
 from contracts import structure as sfc
-from pyvc.bounded import ContractSampling
+from pyvc.bounded import Bounded, ContractSampling
 
 LEVEL = "other"
 LEVEL_TEXT = ("get_structure_factor is verified (whole body, dimensions 1-3, every combination of smoothing none/0/'none'/'auto'/number, wave numbers "
@@ -28,3 +28,58 @@ BOUNDED = [ContractSampling("structure-factor-vs-brute-force-dft", CONTRACTS,
                             "0.05..10, shifted origins, factors 1e-9..1e6 and negative, offsets; every returned entry is compared with an O(N^2) "
                             "brute-force DFT of the definition (which has all the stated symmetries), wave numbers with the fftfreq formula, the "
                             "smoothed variant with a smoother built from the brute-force spectrum")]
+
+
+class LargeGridSmoothed(Bounded):
+    """the smoothed variant on a grid with more than 2**14 modes (every sampled grid of the other stand-in is tiny): requested wave numbers are
+    returned as given and the result is invariant under permuting the axes together with the grid and under reflection"""
+    name = "smoothed-structure-factor-on-a-large-grid"
+    bound = ("1 (quick) / 3 (thorough) stripe + noise fields on a 256 x 128 periodic grid with unequal spacings: smoothed structure factor at 6 requested "
+             "wave numbers vs the same field with permuted axes (grid permuted, too) and vs the reflected field, relative tolerance 1e-9; and vs "
+             "SmoothData1D applied to the complete FFT spectrum (numpy's FFT as oracle: its contract is validated against the brute-force DFT on small grids)")
+
+    def run(self, tier, seed):
+        import numpy as np
+        import pde
+        from pde.tools.math import SmoothData1D
+        from droplets.image_analysis import get_structure_factor
+        ev, viol = 0, []
+        for t in range(1 if tier == "quick" else 3):
+            rng = np.random.default_rng(seed + 160 + t)
+            shape, dx = (256, 128), (0.5, 1.25)
+            x = (np.arange(shape[0]) + 0.5) * dx[0]
+            data = np.sin(2 * np.pi * (3 + t) * x / (shape[0] * dx[0]))[:, None] + 0.05 * rng.standard_normal(shape)
+            grid = pde.CartesianGrid([(0, n * d) for n, d in zip(shape, dx)], shape, periodic=True)
+            gridT = pde.CartesianGrid([(0, n * d) for n, d in zip(shape[::-1], dx[::-1])], shape[::-1], periodic=True)
+            kmax = np.pi / max(dx)
+            kreq = np.array([0.05, 0.11, 0.3, 0.52, 0.9, 1.0]) * kmax
+            sm = 0.02 * kmax
+            ev += 1
+            k0, s0 = get_structure_factor(pde.ScalarField(grid, data), wave_numbers=kreq, smoothing=sm)
+            k1, s1 = get_structure_factor(pde.ScalarField(gridT, data.T), wave_numbers=kreq, smoothing=sm)
+            k2, s2 = get_structure_factor(pde.ScalarField(grid, data[::-1, ::-1]), wave_numbers=kreq, smoothing=sm)
+            bad = []
+            if not (np.array_equal(k0, kreq) and np.array_equal(k1, kreq)):
+                bad.append("requested wave numbers are returned exactly")
+            if not (np.allclose(s0, s1, rtol=1e-9, atol=1e-14) and np.allclose(s0, s2, rtol=1e-9, atol=1e-14)):
+                bad.append("the smoothed structure factor is unchanged when the axes are permuted together with the grid / the field is reflected")
+            f = np.fft.fftn(data, norm="ortho")
+            sf = (np.abs(f) ** 2 / np.sum(data ** 2)).flat[1:]
+            ks = [2 * np.pi * np.fft.fftfreq(n, d) for n, d in zip(shape, dx)]
+            km = np.sqrt(ks[0][:, None] ** 2 + ks[1][None, :] ** 2).flat[1:]
+            ref = SmoothData1D(km, sf, sigma=sm)(kreq)
+            if not np.allclose(s0, ref, rtol=1e-7, atol=1e-14):
+                bad.append("the smoothed structure factor is the smoother of the COMPLETE spectrum evaluated at the requested wave numbers")
+            for b in bad:
+                viol.append(dict(signature=f"large-grid:{b}", what=b, inputs=dict(t=t, seed=seed, shape=list(shape), dx=list(dx))))
+        uniq = {}
+        for v in viol:
+            uniq.setdefault(v["signature"], v)
+        return dict(evaluations=ev, distinct=ev, violations=list(uniq.values()))
+
+    def replay(self, rec):
+        r = self.run("thorough", int(rec.get("inputs", {}).get("seed", 0)))
+        return dict(violated=[v["signature"] for v in r["violations"]])
+
+
+BOUNDED.append(LargeGridSmoothed())
